@@ -191,3 +191,56 @@ def describe(path, deleted=()):
         d["tables"][name] = t
     con.close()
     return d
+
+
+def zoo_db(path, page_size, rnd, n=120):
+    """Tables with many index layouts: multi-column, COLLATE, DESC, UNIQUE, automatic indexes, WITHOUT ROWID with
+    primary keys in odd positions, secondary indexes overlapping the primary key; mixed classes and NULLs."""
+    con = connect(path, page_size)
+    con.execute("CREATE TABLE z1(a, b, c TEXT, d, PRIMARY KEY(b, a), UNIQUE(c COLLATE NOCASE, d DESC))")
+    con.execute("CREATE INDEX z1d ON z1(d DESC, a)")
+    con.execute("CREATE INDEX z1c ON z1(c COLLATE RTRIM)")
+    con.execute("CREATE TABLE z2(k1, k2 TEXT, k3 TEXT, v1, v2, PRIMARY KEY(k2 DESC, k1)) WITHOUT ROWID")
+    con.execute("CREATE INDEX z2v ON z2(v1, k1)")
+    con.execute("CREATE INDEX z2k ON z2(k3 COLLATE RTRIM DESC)")
+    con.execute("CREATE UNIQUE INDEX z2u ON z2(v2, k2)")
+    con.execute("CREATE TABLE z3(a TEXT COLLATE NOCASE UNIQUE, b INT UNIQUE, c)")
+    con.execute("CREATE TABLE z4(x INTEGER PRIMARY KEY DESC, y)")
+    con.execute("CREATE TABLE z5(p TEXT PRIMARY KEY, q) WITHOUT ROWID")
+    con.execute("CREATE INDEX z5q ON z5(q)")
+    # column collation vs explicit collation of the index / constraint
+    con.execute("CREATE TABLE z6(a TEXT COLLATE NOCASE, b TEXT COLLATE RTRIM, c, UNIQUE(a COLLATE RTRIM, c))")
+    con.execute("CREATE INDEX z6a ON z6(a COLLATE BINARY)")
+    con.execute("CREATE INDEX z6b ON z6(b COLLATE NOCASE, a COLLATE RTRIM DESC)")
+    con.execute("CREATE INDEX z6c ON z6(b, a)")
+    con.execute("BEGIN")
+    pool = TEXTPOOL
+    for i in range(n):
+        try:
+            con.execute("INSERT INTO z6 VALUES(?,?,?)", (rnd.choice(pool[:20]), rnd.choice(pool[:20]), i % 5))
+        except sqlite3.IntegrityError:
+            pass
+    vals = _rows_values(rnd, n * 3, pool)
+    for i in range(n):
+        try:
+            con.execute("INSERT INTO z1 VALUES(?,?,?,?)", (vals[i], i // 2, rnd.choice(pool) + str(i // 4), rnd.choice([None, i % 7, "d%d" % (i % 5), 1.5])))
+        except sqlite3.IntegrityError:
+            pass
+        try:
+            con.execute("INSERT INTO z2 VALUES(?,?,?,?,?)", (i // 3, rnd.choice(pool) + str(i % 9), rnd.choice(pool), vals[n + i], i))
+        except sqlite3.IntegrityError:
+            pass
+        try:
+            con.execute("INSERT INTO z3 VALUES(?,?,?)", (rnd.choice([None, rnd.choice(pool) + str(i)]), rnd.choice([None, i * 3 - 50]), vals[2 * n + i]))
+        except sqlite3.IntegrityError:
+            pass
+        con.execute("INSERT INTO z4 VALUES(?,?)", (i * 5 - 100, vals[i]))
+        try:
+            con.execute("INSERT INTO z5 VALUES(?,?)", (rnd.choice(pool) + str(i // 2), rnd.choice([None, i % 4, "q"])))
+        except sqlite3.IntegrityError:
+            pass
+    con.execute("COMMIT")
+    con.execute("DELETE FROM z1 WHERE rowid % 9 = 0")
+    con.execute("DELETE FROM z2 WHERE k1 % 7 = 0")
+    con.close()
+    return describe(path)
